@@ -262,6 +262,6 @@ def check_case(ctx: Ctx, case) -> None:
 
 
 PARTS: list[Part] = [
-    hyp_part("faults", strat_cases, check_case, {"quick": 150, "thorough": 1500},
+    hyp_part("faults", strat_cases, check_case, {"quick": 150, "thorough": 4500},
              {"quick": 8, "thorough": 16}),
 ]
